@@ -119,6 +119,14 @@ func (v *Vue) evaluate(ctx VueContext, nodes []*html.Node, depth int) ([]*html.N
 				if helpers.HasAttr(node, "v-keep") {
 					// Clone the template node and attach evaluated children
 					templateNode := helpers.ShallowCloneWithAttrs(node)
+					// the kept tag is an output element: bindings, interpolation and v-show
+					// apply to it as to any other element
+					if _, err := v.evalAttributes(ctx, templateNode); err != nil {
+						return nil, err
+					}
+					if err := v.evalVShow(ctx, templateNode); err != nil {
+						return nil, err
+					}
 
 					// Attach evaluated children to the cloned template node
 					if len(evaluated) > 0 {
